@@ -162,3 +162,17 @@ fn read_http_response(mut resp: actix_web::HttpResponse) -> Resp {
   };
   Resp { status, content_type, body }
 }
+
+/// Percent-encodes a path segment (everything but unreserved characters).
+pub fn percent_encode(segment: &str) -> String {
+  let mut out = String::new();
+  for b in segment.bytes() {
+    if b.is_ascii_alphanumeric() || matches!(b, b'-' | b'.' | b'_' | b'~') {
+      out.push(b as char);
+    } else {
+      out.push_str(&format!("%{:02X}", b));
+    }
+  }
+  out
+}
+
